@@ -1636,4 +1636,244 @@ theorem advance_mono (hist : Int) (fd : Nat) (w w' : Int) (h : w ≤ w') :
     have := Int.ediv_le_ediv hpos h
     omega
 
+/-! ### copies of a file (plain / gz / bz2 side by side) -/
+
+/-- a history in which file `i` is present `n_i + 1` times in a row (its compressed copies sort
+directly after it and hold the same lines) -/
+def withCopies : List (File × Nat) → History
+  | [] => []
+  | (f, n) :: rest => List.replicate (n + 1) f ++ withCopies rest
+
+theorem scan_dup (target : Time) (after strict : Bool) (f : File) (X : History) (last : Option Opened) :
+    scan target after strict (f :: f :: X) last = scan target after strict (f :: X) last := by
+  simp only [scan]
+  cases firstRecord f with
+  | empty => rfl
+  | bad => rfl
+  | ok ts p rest =>
+    simp only
+    split
+    · rfl
+    · split
+      · rfl
+      · rfl
+
+theorem scan_replicate (target : Time) (after strict : Bool) (f : File) (n : Nat) (X : History)
+    (last : Option Opened) :
+    scan target after strict (List.replicate (n + 1) f ++ X) last = scan target after strict (f :: X) last := by
+  induction n with
+  | zero => rfl
+  | succ n ih =>
+    rw [List.replicate_succ, List.cons_append, List.replicate_succ, List.cons_append, scan_dup,
+      ← List.cons_append, ← List.replicate_succ, ih]
+
+theorem scan_cons_congr (target : Time) (after strict : Bool) (f : File) (X Y : History)
+    (h : ∀ last, scan target after strict X last = scan target after strict Y last) (last : Option Opened) :
+    scan target after strict (f :: X) last = scan target after strict (f :: Y) last := by
+  simp only [scan]
+  cases firstRecord f with
+  | empty => rfl
+  | bad => exact h last
+  | ok ts p rest =>
+    simp only
+    split
+    · rfl
+    · split
+      · rfl
+      · exact h _
+
+/-- copies do not change which content `reader.open` selects -/
+theorem scan_copies (target : Time) (after strict : Bool) (fs : List (File × Nat)) :
+    ∀ last, scan target after strict (withCopies fs) last = scan target after strict (fs.map (·.1)) last := by
+  induction fs with
+  | nil => intro last; rfl
+  | cons fn rest ih =>
+    intro last
+    obtain ⟨f, n⟩ := fn
+    simp only [withCopies, List.map_cons]
+    rw [scan_replicate]
+    exact scan_cons_congr target after strict f _ _ ih last
+
+/-- `g` agrees with `f` wherever `f` does not hang -/
+def Extends (f g : LState → Time → List Event → LoadOut) : Prop :=
+  ∀ s lc evs, f s lc evs ≠ .hang → g s lc evs = f s lc evs
+
+theorem continueWith_extends {f g : LState → Time → List Event → LoadOut} (h : Extends f g) (r : ForOut)
+    (hne : continueWith f r ≠ .hang) : continueWith g r = continueWith f r := by
+  unfold continueWith at hne ⊢
+  split
+  · rfl
+  · simp only at hne ⊢
+    split
+    · rename_i hc
+      simp only [hc, ↓reduceIte] at hne
+      exact h _ _ _ hne
+    · rfl
+
+/-- the same selections and at least as many opens allowed: the same result, unless the first hangs -/
+theorem loadLoop_extends (H H' : History) (o : Opts) (a : LoadArgs)
+    (hscan : ∀ target after strict, scan target after strict H' none = scan target after strict H none)
+    (fuel : Nat) : ∀ k, Extends (loadLoop H o a fuel) (loadLoop H' o a (fuel + k)) := by
+  induction fuel with
+  | zero => intro k s lc evs hne; simp [loadLoop] at hne
+  | succ n ih =>
+    intro k s lc evs hne
+    have hk : n + 1 + k = (n + k) + 1 := by omega
+    rw [hk]
+    simp only [loadLoop, hscan] at hne ⊢
+    split
+    · rfl
+    · rename_i op hop
+      simp only [hop] at hne
+      exact continueWith_extends (ih k) _ hne
+
+theorem withCopies_length (fs : List (File × Nat)) : fs.length ≤ List.length (withCopies fs) := by
+  induction fs with
+  | nil => simp [withCopies]
+  | cons fn rest ih =>
+    simp only [withCopies, List.length_cons, List.length_append, List.length_replicate]
+    generalize List.length (withCopies rest) = d at ih ⊢
+    omega
+
+theorem load_copies (fs : List (File × Nat)) (o : Opts) (a : LoadArgs) (s : LState)
+    (hne : load (fs.map (·.1)) o a s ≠ .hang) :
+    load (withCopies fs) o a s = load (fs.map (·.1)) o a s := by
+  have hscan : ∀ target after strict,
+      scan target after strict (withCopies fs) none = scan target after strict (fs.map (·.1)) none :=
+    fun t af st => scan_copies t af st fs none
+  have hlen : ∃ k, openBudget (withCopies fs) = openBudget (fs.map (·.1)) + k := by
+    have := withCopies_length fs
+    refine ⟨openBudget (withCopies fs) - openBudget (fs.map (·.1)), ?_⟩
+    simp only [openBudget, List.length_map]
+    generalize List.length (withCopies fs) = d at this ⊢
+    omega
+  obtain ⟨k, hk⟩ := hlen
+  have hext := loadLoop_extends (fs.map (·.1)) (withCopies fs) o a hscan (openBudget (fs.map (·.1))) k
+  rw [← hk] at hext
+  unfold load at hne ⊢
+  split
+  · rfl
+  · rename_i h1
+    simp only [h1, ↓reduceIte] at hne
+    split
+    · rename_i h2
+      simp only [h2, ↓reduceIte] at hne
+      exact hext _ _ _ hne
+    · rename_i h2
+      simp only [h2, ↓reduceIte] at hne
+      exact continueWith_extends hext _ hne
+
+/-- **Copies are irrelevant**: a history with compressed copies next to (or instead of) the plain
+files replays exactly as the history without them. -/
+theorem runLoads_copies (fs : List (File × Nat)) (o : Opts) (sched : List LoadArgs) :
+    ∀ s, (∀ out ∈ runLoads (fs.map (·.1)) o sched s, out ≠ .hang) →
+    runLoads (withCopies fs) o sched s = runLoads (fs.map (·.1)) o sched s := by
+  induction sched with
+  | nil => intro s _; rfl
+  | cons a as ih =>
+    intro s hne
+    simp only [runLoads] at hne ⊢
+    cases hl : load (fs.map (·.1)) o a s with
+    | hang => rw [hl] at hne; simp at hne
+    | done t s' evs =>
+      rw [load_copies fs o a s (by rw [hl]; simp), hl]
+      rw [hl] at hne
+      simp only [List.mem_cons, ne_eq, forall_eq_or_imp] at hne
+      simp only
+      rw [ih s' hne.2]
+
+/-! ### comment lines and lines with an unparsable timestamp -/
+
+def isRecord : Line → Bool
+  | .recd _ _ => true
+  | _ => false
+
+/-- the file without its comment lines and without the lines whose timestamp cannot be parsed -/
+def stripLines (ls : List Line) : List Line := ls.filter isRecord
+
+theorem tsOf_strip (ls : List Line) : tsOf (stripLines ls) = tsOf ls := by
+  induction ls with
+  | nil => rfl
+  | cons l ls ih =>
+    cases l with
+    | recd t p => simp only [stripLines, List.filter_cons, isRecord, ↓reduceIte, tsOf_cons_recd] at ih ⊢; rw [ih]
+    | comment => simpa [stripLines, List.filter_cons, isRecord, tsOf_cons_comment] using ih
+    | corrupt => simpa [stripLines, List.filter_cons, isRecord, tsOf_cons_corrupt] using ih
+
+theorem deliverable_strip (ls : List Line) : deliverable (stripLines ls) = deliverable ls := by
+  induction ls with
+  | nil => rfl
+  | cons l ls ih =>
+    cases l with
+    | recd t p =>
+      simp only [stripLines, List.filter_cons, isRecord, ↓reduceIte] at ih ⊢
+      rw [deliverable_cons, deliverable_cons, ih]
+    | comment =>
+      simp only [stripLines, List.filter_cons, isRecord] at ih ⊢
+      rw [deliverable_cons]; simpa [lineEvent] using ih
+    | corrupt =>
+      simp only [stripLines, List.filter_cons, isRecord] at ih ⊢
+      rw [deliverable_cons]; simpa [lineEvent] using ih
+
+theorem stripLines_append (a b : List Line) : stripLines (a ++ b) = stripLines a ++ stripLines b := by
+  simp [stripLines]
+
+theorem stripLines_flatten (fs : List File) : stripLines fs.flatten = (fs.map stripLines).flatten := by
+  induction fs with
+  | nil => rfl
+  | cons f fs ih => simp [stripLines_append, ih]
+
+theorem firstRecord_strip {f : File} {t : Time} {p : Payload} {rest : List Line}
+    (h : firstRecord f = .ok t p rest) : firstRecord (stripLines f) = .ok t p (stripLines rest) := by
+  obtain ⟨pre, rfl, hp⟩ := firstRecord_ok h
+  have : stripLines pre = [] := by
+    simp only [stripLines, List.filter_eq_nil_iff]
+    intro l hl
+    rw [hp l hl]; simp [isRecord]
+  rw [stripLines_append, this]
+  simp [stripLines, List.filter_cons, isRecord, firstRecord]
+
+theorem FirstOk.strip {f : File} (h : FirstOk f) : FirstOk (stripLines f) ∧ firstTs0 (stripLines f) = firstTs0 f := by
+  obtain ⟨p, rest, hf, hp⟩ := h.ok
+  have := firstRecord_strip hf
+  exact ⟨by simp [FirstOk, this, hp], by simp [firstTs0, this]⟩
+
+theorem WF.strip {H : History} (h : WF H) : WF (H.map stripLines) := by
+  refine ⟨?_, ?_, ?_⟩
+  · intro f hf
+    obtain ⟨g, hg, rfl⟩ := List.mem_map.mp hf
+    exact (h.first_ok g hg).strip.1
+  · have : chron (H.map stripLines) = stripLines (chron H) := by
+      simp [chron, stripLines_flatten, List.map_reverse]
+    rw [this, tsOf_strip]
+    exact h.mono
+  · rw [List.pairwise_map]
+    refine List.Pairwise.imp_of_mem ?_ h.firsts
+    intro a b ha hb hab
+    rw [(h.first_ok a ha).strip.2, (h.first_ok b hb).strip.2]
+    exact hab
+
+theorem startSplit_strip (c : Time) (H : History) (hok : ∀ f ∈ H, FirstOk f) :
+    startSplit c (H.map stripLines) =
+      (startSplit c H).map fun x => (x.1.map stripLines, stripLines x.2.1, x.2.2.map stripLines) := by
+  induction H with
+  | nil => rfl
+  | cons f older ih =>
+    have hf := (hok f (by simp)).strip.2
+    simp only [List.map_cons, startSplit, hf, List.map_eq_nil_iff]
+    split
+    · rfl
+    · rw [ih (fun g hg => hok g (by simp [hg]))]
+      cases startSplit c older <;> rfl
+
+theorem spanLines_strip (c : Time) (H : History) (hok : ∀ f ∈ H, FirstOk f) :
+    spanLines (H.map stripLines) c = stripLines (spanLines H c) := by
+  unfold spanLines
+  rw [startSplit_strip c H hok]
+  cases startSplit c H with
+  | none => rfl
+  | some x =>
+    obtain ⟨pre, f, post⟩ := x
+    simp [stripLines_append, stripLines_flatten, List.map_reverse]
+
 end Cpppo.History
